@@ -164,18 +164,20 @@ def law_L3(rng: random.Random, out: Dict[str, Any]) -> None:
     if kind == 'req':
         target = rng.choice([b'/a/b?c=d', b'http://h.test/a/b?c=d', b'http://h.test:81/'])
         m = G.gen_request(rng, target=target, host_header=b'h.test', framing=framing, body=body,
-                          ext=(fr == 'chunked-ext'), trailers=(fr == 'chunked-trailers'))
+                          ext=(fr == 'chunked-ext'), trailers=(fr == 'chunked-trailers'),
+                          version=b'HTTP/1.1' if framing == 'chunked' or rng.random() < 0.6 else rng.choice([b'HTTP/1.0', b'HTTP/1.0', b'HTTP/1.2']))
         p = HttpParser.request(m.raw)
         z = p.build()
         q = HttpParser.request(z)
     else:
         if framing == 'none':
             framing, fr = 'cl', 'cl0'
-        m = G.gen_response(rng, framing=framing, body=body, ext=(fr == 'chunked-ext'), trailers=(fr == 'chunked-trailers'))
+        m = G.gen_response(rng, framing=framing, body=body, ext=(fr == 'chunked-ext'), trailers=(fr == 'chunked-trailers'),
+                           version=b'HTTP/1.1' if framing == 'chunked' or rng.random() < 0.6 else b'HTTP/1.0')
         p = HttpParser.response(m.raw)
         z = p.build_response()
         q = HttpParser.response(z)
-    out['cls'] = '%s-%s' % (kind, fr)
+    out['cls'] = '%s-%s%s' % (kind, fr, '' if m.version == b'HTTP/1.1' else '-' + m.version.decode())
     out['nontrivial'] = bool(m.body) or len(m.headers) >= 2
     out['input'] = {'message': m.raw[:400], 'desc': m.describe()}
     if not p.is_complete:
@@ -244,6 +246,29 @@ def law_L4(rng: random.Random, out: Dict[str, Any]) -> None:
             qb = b'<undecodable>'
     if not q.is_complete or qb != nb:
         out['bad'].append(('ours-reparse', (q.is_complete, len(qb))))
+    # a message may be edited and serialised again and again (a plugin masking digits in place): each serialisation carries the
+    # body as it is at that moment - same length as before included
+    if nb and not out['bad']:
+        for rnd in range(2):
+            nb2 = bytes(((b + 1 + rnd) % 256) for b in nb[:2000]) + nb[2000:]
+            if rng.random() < 0.5:
+                p.update_body(nb2, b'application/x-new')
+            else:
+                p.body = gzip.compress(nb2) if enc == 'gzip' and p.has_header(b'content-encoding') else nb2
+            z2 = p.build()
+            ms2, err2, left2 = h11util.parse_requests(z2)
+            if err2 or len(ms2) != 1 or not ms2[0]['complete'] or left2:
+                out['bad'].append(('rebuild-after-same-length-edit-h11-rejects', err2))
+                break
+            g2 = ms2[0]['body']
+            if hmap(ms2[0]['headers']).get(b'content-encoding') == b'gzip':
+                try:
+                    g2 = gzip.decompress(g2)
+                except Exception:
+                    g2 = b'<undecodable>'
+            if g2 != nb2:
+                out['bad'].append(('rebuild-after-same-length-edit-carries-old-body', (len(g2), g2[:20], nb2[:20])))
+                break
 
 
 def law_L5(rng: random.Random, out: Dict[str, Any], exhaustive_max: int) -> None:
